@@ -10,9 +10,9 @@ OUT=/verif/seeded/$ID
 git -C /repo worktree remove --force $WT >/dev/null 2>&1
 git -C /repo worktree add -q $WT HEAD || exit 2
 R=""
-/venv/bin/python $SD/demo.py $WT >/tmp/seed_demo_clean.txt 2>&1; C1=$?
+(cd $WT && /venv/bin/python $SD/demo.py $WT) >/tmp/seed_demo_clean.txt 2>&1; C1=$?
 git -C $WT apply $SD/patch.diff || { echo "patch does not apply"; git -C /repo worktree remove --force $WT; exit 2; }
-/venv/bin/python $SD/demo.py $WT >/tmp/seed_demo_patched.txt 2>&1; C2=$?
+(cd $WT && /venv/bin/python $SD/demo.py $WT) >/tmp/seed_demo_patched.txt 2>&1; C2=$?
 T=$(cd $WT && /venv/bin/python -m pytest -q -p no:cacheprovider 2>&1 | tail -1)
 git -C /repo worktree remove --force $WT
 echo "demo clean exit=$C1 patched exit=$C2 tests: $T"
